@@ -33,7 +33,7 @@ let () =
     let o = M.c15_validator t in
     List [of_outcome (fun a -> List [of_bool a.M.va_email; of_bool a.M.va_url;
                                       of_opt of_vcon a.M.va_length; of_opt of_vcon a.M.va_range]) o;
-          of_bool (M.c15_kf_msg t); of_bool (M.c15_utf8 t)]);
+          of_bool false; of_bool (M.c15_utf8 t)]);
   Registry.register "serde" (fun s ->
     let t = str_ s in
     let o = M.c15_serde t in
@@ -42,7 +42,7 @@ let () =
               | Some v -> (match M.c15_rule_of_str v with Some r -> List [Atom (rule_name r)] | None -> List [])
               | None -> List [] in
             List [of_opt of_str a.M.sa_rename; of_bool a.M.sa_skip; rule]) o;
-          of_bool (M.c15_kf_rename t); of_bool (M.c15_utf8 t)]);
+          of_bool false; of_bool (M.c15_utf8 t)]);
   Registry.register "type" (fun s ->
     let t = str_ s in
     List [of_outcome of_ts (M.c15_parse t); of_outcome (of_list of_str) (M.c15_names t); of_bool (M.c15_utf8 t)]);
@@ -50,12 +50,18 @@ let () =
     let t = str_ s in
     List [of_outcome of_str (M.c15_prefix t); of_bool (M.c15_utf8 t)]);
   Registry.register "naming" (fun s ->
-    (* (rule name) : apply_to_field; rule = event for event_name_to_function *)
+    (* (rule name) : apply_naming_convention; rule = event for event_name_to_function;
+       rule = variant:<rule> for compute_variant_name (apply_to_variant) *)
     match list s with
     | [r; n] ->
         let n = str_ n in
-        let o = if atom r = "event" then M.c15_event_fn n else M.c15_apply (rule_of_name (atom r)) n in
-        List [of_outcome of_str o; of_bool (M.c15_kf_camel n); of_bool (M.c15_utf8 n)]
+        let r = atom r in
+        let is_variant = String.length r > 8 && String.sub r 0 8 = "variant:" in
+        let o = if r = "event" then M.c15_event_fn n
+                else if is_variant then M.c15_variant (rule_of_name (String.sub r 8 (String.length r - 8))) n
+                else M.c15_apply (rule_of_name r) n in
+        let kf = is_variant && r = "variant:camelCase" && M.c15_kf_variant n in
+        List [of_outcome of_str o; of_bool kf; of_bool (M.c15_utf8 n)]
     | _ -> failwith "c15-naming: bad case");
   Registry.register "kf" (fun s ->
     (* (kind text): class predicates, used on the inventory of a project-level case *)
@@ -63,8 +69,7 @@ let () =
     | [k; t] ->
         let t = str_ t in
         of_bool (match atom k with
-                 | "camel" -> M.c15_kf_camel t
-                 | "validate" -> M.c15_kf_msg t
-                 | "serde" -> M.c15_kf_rename t
+                 | "variant" -> M.c15_kf_variant t
+                 | "camel" | "validate" | "serde" -> false
                  | _ -> failwith "kind")
     | _ -> failwith "c15-kf: bad case")
